@@ -43,6 +43,9 @@ type KAScenario struct {
 	// HugeK: a keep-alive near the top of the 16-bit range (54614, 54615, 65535 s): the client
 	// pings after pauses of 0.5, 0.5, 3.5 and 0.5 s and must of course still be connected.
 	HugeK int `json:"huge_k,omitempty"`
+	// Resume: the scenario's connection resumes a session (CleanSession=0): a first
+	// connection with the byte-identical CONNECT was ended by a DISCONNECT packet before.
+	Resume bool `json:"resume,omitempty"`
 }
 
 type C19Case struct {
@@ -97,13 +100,28 @@ func runC19(c C19Case) (fails []string, incon int, classes []string) {
 			defer wg.Done()
 			o := &outs[si]
 			K := time.Duration(sc.K) * time.Second
-			cn := b.Dial(fmt.Sprintf("ka%d", si))
 			cp := wire.ConnectPacket(fmt.Sprintf("ka%d", si), true, uint16(sc.K))
 			if sc.HugeK > 0 {
 				cp.KeepAlive = uint16(sc.HugeK)
 			}
 			cp.ConnectFlags |= 4
 			cp.WillTopic, cp.WillMessage = []byte(fmt.Sprintf("ka/will/%d", si)), []byte("expired")
+			if sc.Resume {
+				cp.ConnectFlags &^= 2 // CleanSession=0
+				c0 := b.Dial(fmt.Sprintf("ka%d-first", si))
+				if _, err := c0.Connect(cp); err != nil {
+					o.fail = fmt.Sprintf("scenario %d: first connect: %v", si, err)
+					return
+				}
+				c0.Send(&codec.Packet{Type: codec.DISCONNECT})
+				if !c0.WaitTeardown(wire.DefaultWait) {
+					o.incon = fmt.Sprintf("scenario %d: teardown of the first connection not seen", si)
+					return
+				}
+				c0.Close()
+				o.cls = append(o.cls, "session-resumed-with-identical-CONNECT-after-DISCONNECT")
+			}
+			cn := b.Dial(fmt.Sprintf("ka%d", si))
 			if _, err := cn.Connect(cp); err != nil {
 				o.fail = fmt.Sprintf("scenario %d: connect: %v", si, err)
 				return
@@ -337,6 +355,7 @@ func genC19(t *rapid.T) C19Case {
 				sc.Steps = append(sc.Steps, lg)
 			}
 		}
+		sc.Resume = rapid.IntRange(0, 3).Draw(t, "resume") == 0
 		if sc.Silent && rapid.IntRange(0, 2).Draw(t, "partial") == 0 {
 			sc.Partial = rapid.SampledFrom([]int{1, 2, 9, 22}).Draw(t, "cut")
 		}
